@@ -32,6 +32,15 @@ Theorem C34_bad_changes_nothing : forall nslen can s,
 Proof. exact bad_changes_nothing. Qed.
 Print Assumptions C34_bad_changes_nothing.
 
+(* BadBrowseNameInvalid is reported only for a browse name that is null or empty: whatever the
+   namespace of the name and whatever characters it contains (the name is a code in the model; the
+   harness maps codes to names with reserved relative path characters too). *)
+Theorem C34_browse_name_invalid_only_if_empty : forall nslen can s i,
+  1 <= nslen -> Z.of_nat (length (nodes s)) < U32 ->
+  r_status (add_node fixed_cfg nslen can s i) = 5 -> a_bname i < 2.
+Proof. exact browse_name_invalid_only_if_empty. Qed.
+Print Assumptions C34_browse_name_invalid_only_if_empty.
+
 (* A server-assigned id (no id requested) never collides with an existing node, whatever the value
    of the global counter (including its wrap-around at u32 and usize), and lies in namespace 1.
    The allocation loop needs at most |nodes|+1 draws (pigeonhole). *)
@@ -106,3 +115,6 @@ Print Assumptions C34_legacy_refuted_self_reference.
 Theorem C34_legacy_refuted_array_dimensions : exists c, valid c /\ oracle c (run_with Legacy.no_dims c) = false.
 Proof. exact legacy_refuted_dims. Qed.
 Print Assumptions C34_legacy_refuted_array_dimensions.
+Theorem C34_legacy_refuted_namespaced_browse_name : exists c, valid c /\ oracle c (run_with Legacy.no_nsname c) = false.
+Proof. exact legacy_refuted_nsname. Qed.
+Print Assumptions C34_legacy_refuted_namespaced_browse_name.
